@@ -37,7 +37,12 @@ func verifNewSys(n int) *verifSys {
 		node := &verifSysNode{}
 		cb := func(b hg.Block) (proxy.CommitResponse, error) {
 			node.blocks = append(node.blocks, b)
-			return proxy.CommitResponse{StateHash: []byte{byte(len(node.blocks))}, InternalTransactionReceipts: []hg.InternalTransactionReceipt{}}, nil
+			// the application accepts every membership request (as the dummy app does)
+			receipts := []hg.InternalTransactionReceipt{}
+			for _, it := range b.InternalTransactions() {
+				receipts = append(receipts, it.AsAccepted())
+			}
+			return proxy.CommitResponse{StateHash: []byte{byte(len(node.blocks))}, InternalTransactionReceipts: receipts}, nil
 		}
 		node.c = newCore(NewValidator(verifKey(i), fmt.Sprintf("node%d", i)), set, set, hg.NewInmemStore(1000), cb, false, verifLogger())
 		node.c.setHeadAndSeq()
